@@ -141,23 +141,77 @@ def check_privilege_match(rep, ctx, tier):
             rep.add(Query("Privilege::is_match path %d: pairs are searched in query_pairs(request url)" % i, "holds" if okq else "violated", "", 0, "mirsym", key="C02.priv.pairs-source", reproduced=None))
     rep.add(Query("witness: Privilege::is_match has true paths", "witness-hit" if n_true else "witness-missed", "%d" % n_true, 0, "mirsym"))
     # the key comparison closure
+    captured_lowered = []
     cl = [p for p in ctx.idx.files if p.startswith(path + "::{closure")]
     for c in cl:
         e2 = ctx.engine()
         for r in e2.explore(c):
             lows = [e for e in r.events if e.kind == "call" and LOWER.search(e.callee)]
             ret = r.ret
-            ok = isinstance(ret, Scalar) and len(lows) == 2 and z3.is_eq(ret.e) and \
-                {str(ret.e.arg(0)), str(ret.e.arg(1))} == {str(lows[0].ret.string()), str(lows[1].ret.string())}
-            srcs = [origin(e.rargs[0]) for e in lows]
             env = origin(r.args[0])
             elem = origin(r.args[1]) if len(r.args) > 1 else None
-            one_captured = sum(1 for s_ in srcs if is_part_of(s_, env)) == 1
-            one_elem = sum(1 for s_ in srcs if elem is not None and is_part_of(s_, elem)) == 1
-            rep.add(Query("key-search closure: lower(url key) == lower(listed key)", "holds" if ok and one_captured and one_elem else "violated",
-                          "ret %r" % (ret,), 0, "mirsym", key="C02.priv.key-fold", reproduced=None))
+            # the result is an equality of two strings: lower(a part of the searched element) and the listed key lowered - either
+            # lowered here (lower(captured key)) or captured already lowered (then the capture is checked at the find() call below)
+            sides = []
+            if isinstance(ret, Scalar) and z3.is_eq(ret.e):
+                cmp_ev = [e for e in r.events if e.kind == "streq"]
+                ops = cmp_ev[-1].rargs if cmp_ev else []
+                for x in ops:
+                    xo = origin(x)
+                    lw = [e for e in lows if same_origin(e.ret, xo)]
+                    if lw and elem is not None and is_part_of(origin(lw[0].rargs[0]), elem):
+                        sides.append("lower-of-element")
+                    elif lw and is_part_of(origin(lw[0].rargs[0]), env):
+                        sides.append("lower-of-captured")
+                    elif isinstance(xo, Sym) and is_part_of(xo, env):
+                        idx = [k[1] for k in _part_chain(xo, env) if isinstance(k, tuple) and k[0] == "f"]
+                        sides.append(("captured", idx[0] if idx else None))
+                    else:
+                        sides.append("other")
+            ok = len(sides) == 2 and "lower-of-element" in sides and any(s_ == "lower-of-captured" or isinstance(s_, tuple) for s_ in sides)
+            for s_ in sides:
+                if isinstance(s_, tuple):
+                    captured_lowered.append((c, s_[1]))
+            rep.add(Query("key-search closure: lower(url key) == lower(listed key)", "holds" if ok else "violated",
+                          "ret %r sides %s" % (ret, sides), 0, "mirsym", key="C02.priv.key-fold", reproduced=None))
         rep.functions_encoded.append(c)
+    # a key captured already lowered: at every find() the captured value is to_lowercase(listed key of this iteration)
+    for (cpath, idx) in captured_lowered:
+        n_ok = n_bad = 0
+        for i, r in enumerate(paths):
+            if r.status != "return":
+                continue
+            nxs = [e for e in r.events if e.kind == "call" and re.search(r"hash_map::Iter.*::next$", e.callee)]
+            for f in [e for e in r.events if e.kind == "call" and e.callee.endswith("::find")]:
+                clo = f.rargs[1] if len(f.rargs) > 1 else None
+                if not (isinstance(clo, Agg) and clo.body_path == cpath and idx is not None and idx < len(clo.fields)):
+                    continue
+                cap = origin(clo.fields[idx])
+                if isinstance(cap, Sym) and cap.tag[0] == "part" and cap.tag[2] == "*":
+                    cap = origin(cap.tag[1])
+                lw = [e for e in r.events if e.kind == "call" and LOWER.search(e.callee) and same_origin(e.ret, cap)]
+                before = [e for e in nxs if r.events.index(e) < r.events.index(f)]
+                good = bool(lw) and bool(before) and is_part_of(origin(lw[0].rargs[0]), before[-1].ret)
+                n_ok += good
+                n_bad += not good
+        rep.add(Query("key-search closure: the captured key is to_lowercase(listed key of this iteration) at every find()", "holds" if n_ok and not n_bad else "violated",
+                      "%d ok / %d bad" % (n_ok, n_bad), 0, "mirsym", key="C02.priv.key-fold", reproduced=None))
     rep.bounds["Privilege::is_match"] = "<= 2 listed query parameters (loop bound 2); URLs without duplicate keys (find = first match); rule/url path <= %d ASCII chars for the case-fold query" % (4 if tier == "quick" else 8)
+
+
+def _part_chain(part, whole):
+    chain, cur = [], origin(part)
+    whole = origin(whole)
+    for _ in range(40):
+        if cur is whole or (isinstance(cur, Sym) and isinstance(whole, Sym) and cur.root() is whole.root()):
+            break
+        if isinstance(cur, Sym) and isinstance(cur.tag, tuple) and cur.tag[0] == "part":
+            chain.append(cur.tag[2])
+            cur = origin(cur.tag[1])
+        else:
+            break
+    chain.reverse()
+    return chain
 
 
 def value_comparisons(r):
@@ -279,7 +333,7 @@ def check_identity_match(rep, ctx):
             claim_val = claims_v.child(("f", ctx.field("Claims", clf)))
             hit = [e for e in cmps if any(derives_from(x, rule_val) for x in e.rargs) and any(derives_from(x, claim_val) for x in e.rargs)]
             if hit:
-                conj.append(z3.Implies(present, hit[0].ret.e))
+                conj.append(z3.Implies(present, hit[0].extra))
             else:
                 conj.append(z3.Not(present))      # a true result with this attribute stated but never compared is a violation
                 missing.append(idf)
@@ -289,14 +343,14 @@ def check_identity_match(rep, ctx):
         groups_v = claims_v.child(("f", ctx.field("Claims", "userGroups")))
         nexts = [e for e in r.events if e.kind == "call" and e.callee.endswith("::next")]
         ghits = [e for e in cmps if any(derives_from(x, gval) for x in e.rargs) and any(any(is_part_of(x, nx.ret) for nx in nexts) for x in e.rargs)]
-        conj.append(z3.Implies(gpresent, z3.Or([e.ret.e for e in ghits]) if ghits else z3.BoolVal(False)))
+        conj.append(z3.Implies(gpresent, z3.Or([e.extra for e in ghits]) if ghits else z3.BoolVal(False)))
         bad = add_query(rep, "Identity::is_match path %d: true => every stated attribute (user, process name, exe path) equals the caller's and a stated group is one of the caller's groups" % i,
                         r.pc + [ret, z3.Not(z3.And(conj))], key="C02.ident.necessary", detail="uncompared on this path: %s" % missing)
         if bad:
             rep.add(Query("Identity::is_match path %d: true although a stated attribute differs or is never compared" % i, "violated", "uncompared %s; model %s" % (missing, bad[0]), bad[1],
                           "mirsym+z3", key="C02.ident.necessary", model=bad[0], reproduced=None))
         # false only for a reason: some comparison on the path came out false, or the group list was exhausted without a match
-        reasons = [z3.Not(e.ret.e) for e in cmps] + [z3.And(gpresent, nx.ret.discr() == 0) for nx in nexts]
+        reasons = [z3.Not(e.extra) for e in cmps] + [z3.And(gpresent, nx.ret.discr() == 0) for nx in nexts]
         bad = add_query(rep, "Identity::is_match path %d: false only if some stated attribute differs / no caller group equals the stated group" % i,
                         r.pc + [z3.Not(ret), z3.Not(z3.Or(reasons)) if reasons else z3.BoolVal(True)], key="C02.ident.sufficient")
         if bad:
@@ -420,8 +474,16 @@ def check_flatten(rep, ctx, tier):
         rep.add(Query(name, "violated", detail, 0, "mirsym+z3", key=key, reproduced=None,
                       replay=save_replay("C02", re.sub(r"\W+", "_", key) + ".json", json.dumps({"obligation": name, "detail": detail, "decisions": r.decisions[:80]}, indent=1))))
     counts = {"F1": 0, "F2": 0, "F4": 0}
+    counted = set()
     for r in paths:
         evs = r.events
+        entry_ok = set()
+        for x in evs:
+            if x.kind == "call" and re.search(r"Entry<.*>::(or_default|or_insert|or_insert_with)$|Entry::(or_default|or_insert|or_insert_with)$", x.callee):
+                if x.callee.endswith("or_default") or (len(x.rargs) > 1 and re.search(r"HashSet::new|HashSet<.*>::new|Default", repr(origin(x.rargs[1]))) is not None):
+                    for y in evs[:evs.index(x)]:
+                        if y.kind == "call" and y.callee.endswith("HashMap::entry") and same_origin(y.ret, x.rargs[0]):
+                            entry_ok.add(id(y))
         # the assignments map: the one whose get_mut result receives HashSet::insert, or that is inserted with a HashSet
         setins = [e for e in evs if e.kind == "call" and e.callee.endswith("HashSet::insert")]
         mapins = [e for e in evs if e.kind == "call" and e.callee.endswith("HashMap::insert")]
@@ -452,6 +514,23 @@ def check_flatten(rep, ctx, tier):
             for x in evs[:i]:
                 if x.kind == "call" and x.callee.endswith("HashMap::get_mut") and (is_part_of(so, x.ret) or _unwrap_of(evs, so, x.ret)):
                     gm = x
+            if gm is None:
+                # Entry API: entry(M, key).or_default() / .or_insert(HashSet::new()) / .or_insert_with(HashSet::new) is "the set stored under
+                # key, created empty if absent": it never replaces an existing set (F1 by construction) and is the stored set (F2)
+                for x in evs[:i]:
+                    if x.kind == "call" and re.search(r"Entry<.*>::(or_default|or_insert|or_insert_with)$|Entry::(or_default|or_insert|or_insert_with)$", x.callee) and \
+                            (same_origin(so, x.ret) or is_part_of(so, x.ret) or _unwrap_of(evs, so, x.ret)):
+                        en = [y for y in evs[:evs.index(x)] if y.kind == "call" and y.callee.endswith("HashMap::entry") and same_origin(y.ret, x.rargs[0])]
+                        init_ok = x.callee.endswith("or_default") or (len(x.rargs) > 1 and re.search(r"HashSet::new|HashSet<.*>::new|Default", repr(origin(x.rargs[1]))) is not None)
+                        if en and init_ok:
+                            class _G:
+                                pass
+                            gm = _G()
+                            gm.rargs = [en[-1].rargs[0], en[-1].rargs[1]]
+                            entry_ok.add(id(en[-1]))
+                            if id(x) not in counted:
+                                counted.add(id(x))
+                                n_ins += 1
             counts["F2"] += 1
             if gm is None:
                 viol("C02.flatten.set-source", "from_authorization_item: identities are added to the set stored for the privilege", "set %r is not get_mut() of the assignments map" % (S,), r)
@@ -477,7 +556,7 @@ def check_flatten(rep, ctx, tier):
                      "assignment iter %s role lookup %s" % (bool(ra_next), bool(rg)), r)
         # F3: no other mutation of maps/sets
         for e in evs:
-            if e.kind == "call" and MUT.search(e.callee) and not re.search(r"(HashMap::insert|HashSet::insert|HashMap::get_mut)$", e.callee):
+            if e.kind == "call" and MUT.search(e.callee) and not re.search(r"(HashMap::insert|HashSet::insert|HashMap::get_mut)$", e.callee) and id(e) not in entry_ok:
                 viol("C02.flatten.no-other-mutation", "from_authorization_item: maps and sets are only grown (insert) - no remove/clear/retain/entry", e.callee, r)
         # F4: a defined identity of a defined privilege is always inserted (nothing is skipped)
         for x in evs:
